@@ -339,7 +339,8 @@ fn check_point(cx: &mut Ctx, s: &dyn DynSampler, cached_spec: Option<f64>, ri: u
     // exact cancellation ratio of V:  sum_e x_e (m^2 + p^2) / V
     let a_res: f64 = (0..e).map(|i| xres[i] * (line.m[i] * line.m[i] + p[i].iter().map(|c| c * c).sum::<f64>())).sum();
     let kappa = if v_res > 0.0 { (a_res / v_res).max(1.0) } else { f64::INFINITY };
-    if !(cond <= 1e10) { cx.sm.count("skipped_cond"); return None; }
+    // tolerance proportional to the condition number; when it would exceed 10% nothing can be decided
+    if !(1e-13 * cond <= 0.1) { cx.sm.count("skipped_cond"); return None; }
     if !close(o.u, u_res, 1e-13 * cond.max(1.0) + 1e-13) {
         cx.viol("C08", format!("u = {} differs from the spanning-tree polynomial {} (cond {:.2e})", o.u, u_res, cond), ri, x, json!({"xres": xres}));
     }
@@ -352,7 +353,8 @@ fn check_point(cx: &mut Ctx, s: &dyn DynSampler, cached_spec: Option<f64>, ri: u
             cx.viol("C09", format!("u_vectors[{}][{}] = {} differs from sum_e s_el x_e p_e = {}", li, c, meta.u_vectors[li][c], sum), ri, x, json!({}));
         }
     } }
-    let skip_v = !(kappa * cond <= 1e8);
+    let skip_v = !(1e-13 * kappa * cond <= 0.05);
+    let in_c02_scope = kappa <= 1e8;
     if skip_v { cx.sm.count("skipped_cancellation"); }
     if !skip_v {
         cx.sm.count("v_compared");
@@ -453,11 +455,11 @@ fn check_point(cx: &mut Ctx, s: &dyn DynSampler, cached_spec: Option<f64>, ri: u
         }
     }
     // ------------------------------------------------------------------ C02: bounds
-    if line.generic && !skip_v && line.cmin > 0.0 {
+    if line.generic && !skip_v && in_c02_scope && line.cmin > 0.0 {
         cx.sm.count("bounds_checked");
         let uu = o.u / sc.powi(l as i32);
         let vv = o.v / sc;
-        let slack = 1e-9 * kappa;
+        let slack = 1e-9 * kappa + 1e-13 * kappa * cond.max(1.0);
         let mut bad = vec![];
         if !(utr <= uu * (1.0 + slack)) { bad.push("U_tr <= U"); }
         if !(uu <= line.nt * utr * (1.0 + slack)) { bad.push("U <= N_T U_tr"); }
@@ -596,7 +598,7 @@ pub fn run(lines: &[Value], opts: &SampleOpts) -> Summary {
             for w in res.windows(2) {
                 let ((ra, a), (rb, b)) = (&w[0], &w[1]);
                 let tol = 1e-12 * a.3.max(b.3) + 1e-11;
-                if a.3.max(b.3) > 1e8 { continue; }
+                if !(tol <= 0.05) { continue; }
                 cx.sm.count("routing_pairs_compared");
                 if !close(a.0, b.0, tol) || !close(a.1, b.1, tol) || !close(a.2, b.2, tol * 10.0) {
                     cx.viol("C09", format!("u, v, jacobian depend on the routing: routing {} gives ({}, {}, {}), routing {} gives ({}, {}, {})", ra, a.0, a.1, a.2, rb, b.0, b.1, b.2), *rb, &pt.x, json!({}));
